@@ -8,9 +8,31 @@ pub fn run(property: &str, tier: &str) -> i32 {
     use std::sync::atomic::Ordering::Relaxed;
     let e1_rule = "explicit-state search: every distinct canonical state (placement, side, rights, ep target, inherited promotion descriptor, capture-mode flag) of the S1 reach graph to the per-root depth limits and of the complete S2 small-scope families; transitions = successors produced by the engine's real generate_moves and compared with the rules oracle";
     match property {
-        "C01" | "C02" | "C04" | "C05" | "C13" => {
+        "C01" | "C02" | "C05" | "C13" => {
             let r = e1_posgraph::run(&rep, Focus::for_property(property));
             rep.finish(r.states, r.transitions, r.validated, r.exhaustive, e1_rule)
+        }
+        "C04" => {
+            let r = e1_posgraph::run(&rep, Focus::for_property(property));
+            // the same command inside sessions of the real binary (after go, after other positions, repeated)
+            let mut commands: Vec<String> = crate::e4_session::POSITIONS.iter().map(|s| s.to_string()).collect();
+            for c in [
+                "position fen r3k2r/8/8/8/8/8/8/R3K2R w KQkq - 0 1 moves e1g1 e8c8",
+                "position fen r3k2r/8/8/8/8/8/8/R3K2R w KQkq - 0 1 moves e1c1 e8g8 d1d8",
+                "position fen 4k3/2p1p3/8/3P4/3p4/8/2P1P3/4K3 w - - 0 1 moves e2e4 d4e3",
+                "position fen 4k3/2p1p3/8/3P4/3p4/8/2P1P3/4K3 w - - 0 1 moves c2c4 d4c3 d5d6 c7c5",
+                "position fen r3k3/1P6/8/8/8/8/1p6/R3K3 w Qq - 0 1 moves b7a8q b2a1n",
+                "position fen r3k3/1P6/8/8/8/8/1p6/R3K3 w Qq - 0 1 moves b7b8r b2b1b",
+                "position fen 1r6/8/8/8/8/8/2k5/K7 w - - 0 1",
+                "position startpos moves e2e4",
+                "position fen 7k/8/8/8/8/8/R7/K7 w - - 0 1 moves a2h2",
+            ] {
+                commands.push(c.to_string());
+            }
+            let (sessions, cmds) = crate::e4_session::c04_sessions(&rep, &commands);
+            rep.add("position_commands_checked_in_session_context", sessions);
+            let rule = format!("{}; plus {} position commands (castling both wings, en passant, promotions with capture on a corner, repetitions) each inside 6 session contexts of the real binary (alone, after go, repeated, after ucinewgame, after other games): loop state compared with the rules", e1_rule, commands.len());
+            rep.finish(r.states + sessions, r.transitions + cmds, r.validated + sessions, r.exhaustive, &rule)
         }
         "C03" => {
             // (a) positions x formatting
@@ -31,6 +53,13 @@ pub fn run(property: &str, tier: &str) -> i32 {
             let mut states = points;
             let mut transitions = queries;
             let mut rule = "for each of 20 roots: the un-expired run to the end of iteration D and every expiry index k = 0..K (K = clock consultations of that run) of the real get_best_move; D per root by material (see counters); states = (root,k) points, transitions = clock consultations executed".to_string();
+            if property == "C18" {
+                // every info line of the complete KQK/KRK families, the back-rank family and the mate-in-one sweeps too
+                crate::e2_oracles::explore_c11(&rep, false);
+                states += rep.get("family_states");
+                transitions += rep.get("family_transitions");
+                rule.push_str("; plus every info line of the searches of the complete KQK/KRK families, the back-rank family and the expiry sweeps on mate-in-one roots (won and lost positions, mate scores of both signs)");
+            }
             if property == "C07" {
                 let r3 = crate::e3_driver::run(&rep, false);
                 states += r3.models;
